@@ -30,7 +30,7 @@ STUBS = ["builtin float() inside opendsm.common.metrics -> identity on symbolic 
          "t_stat (scipy t quantile) -> fresh positive symbol", "skew/kurtosis not evaluated"]
 MODELS_USED = ["symreal reductions (sum, mean, var ddof=0, median)", "symnp.quantile (sorting network + numpy linear interpolation)", "sqrt: s>=0, s*s==x"]
 ASSUMPTIONS = ["floats as reals; min_denominator 1e-3 enters as its exact rational value", "inf cells are not enumerated (NaN only): np.isfinite treats both alike"]
-EXPECTED_REGIMES = ["row dropped for NaN", "ratio undefined (denominator not safely positive)", "ddof clipped to 1", "autocorrelation undefined", "reporting row with usage but no prediction", "hourly: interpolated row kept out of the metrics"]
+EXPECTED_REGIMES = ["row dropped for NaN", "ratio undefined (denominator not safely positive)", "ddof clipped to 1", "autocorrelation undefined", "reporting row with usage but no prediction", "hourly: interpolated row kept out of the metrics", "usage of both signs", "series of different lengths"]
 MIN_DEN = 1e-3
 RATIOS = {  # field -> (numerator field, denominator kind)
     "nmae": ("mae", "mean"), "pnmae": ("mae", "iqr"), "nmbe": ("mbe", "mean"), "pnmbe": ("mbe", "iqr"),
@@ -51,7 +51,7 @@ def ENCODED():
 def cases(tier, seed):
     ns = [2, 3, 4] if tier == "thorough" else [2, 3]
     groups = ["core"] + list(RATIOS) + ["r_squared_adj"]
-    out = [f"baseline/{n}/{g}" for n in ns for g in groups] + [f"reporting/{n}" for n in ns[:2]] + ["safe_divide/0", "daily_error/3", "gate/0", "hourly_fit/plain", "hourly_fit/adaptive", "hourly_fit/real", "crosshair/leaves", "conditioning/float", "objects/daily", "objects/billing"]
+    out = [f"baseline/{n}/{g}" for n in ns for g in groups] + [f"reporting/{n}" for n in ns[:2]] + ["safe_divide/0", "daily_error/3", "gate/0", "hourly_fit/plain", "hourly_fit/adaptive", "hourly_fit/real", "crosshair/leaves", "conditioning/float", "caltrack_metrics/variants", "objects/daily", "objects/billing"]
     return out
 
 
@@ -564,6 +564,94 @@ def run_conditioning(case):
     case.sample(dict(check="float conditioning of BaselineMetrics", series=len(paths)))
 
 
+# ----------------------------------------------------------------- CalTRACK-hourly ModelMetrics (concrete family, exact reference)
+
+CT_SIGNS = ["all positive", "all negative (pure exporter)", "both signs (imports at night, exports at noon)", "with zero readings"]
+CT_GAPS = ["complete", "usage gaps", "prediction gaps", "series of different lengths"]
+
+
+def _ct_series(signs, gaps, seed):
+    rng = np.random.default_rng(seed)
+    n = 48
+    idx = pd.date_range("2021-03-01", periods=n, freq="h", tz="UTC")
+    base = 3.0 + np.round(2.0 * np.sin(np.arange(n) * np.pi / 12), 3) + np.round(rng.uniform(-0.5, 0.5, n), 3)
+    if signs.startswith("all negative"):
+        base = -base
+    elif signs.startswith("both signs"):
+        base = base - 3.5  # night import, noon export
+    elif signs.startswith("with zero"):
+        base[[3, 17, 30]] = 0.0
+    obs = pd.Series(base, index=idx)
+    pred = pd.Series(base + np.round(rng.uniform(-0.4, 0.4, n), 3), index=idx)
+    if gaps == "usage gaps":
+        obs.iloc[[5, 6, 40]] = np.nan
+    elif gaps == "prediction gaps":
+        pred.iloc[[0, 20]] = np.nan
+    elif gaps == "series of different lengths":
+        pred = pred.iloc[4:]
+    return obs, pred
+
+
+def replay_caltrack_metrics(inp):
+    """the CalTRACK-hourly statistics class on the pairs both series have: lengths, RMSE and adjusted RMSE, the mean the
+    ratios are normalised by (mean absolute usage, as the class documents for net-metered meters), CVRMSE, NMAE, NMBE, MAPE
+    - against exact rational arithmetic"""
+    from fractions import Fraction as Fr
+    from opendsm.eemeter.models.hourly_caltrack.metrics import ModelMetrics
+    obs, pred = _ct_series(inp["signs"], inp["gaps"], inp["seed"])
+    p = inp["params"]
+    mm = ModelMetrics(obs, pred, num_parameters=p)
+    pairs = [(Fr(float(obs[t])), Fr(float(pred[t]))) for t in obs.index if t in pred.index and obs[t] == obs[t] and pred[t] == pred[t]]
+    n = len(pairs)
+    sse = sum((q - o) ** 2 for o, q in pairs)
+    mabs = sum(abs(o) for o, _ in pairs) / n
+    so = sum(o for o, _ in pairs)
+    want = dict(merged_length=n, observed_length=int(obs.notna().sum()), predicted_length=int(pred.notna().sum()),
+                observed_mean=float(mabs), predicted_mean=float(sum(abs(q) for _, q in pairs) / n),
+                rmse=float(sse / n) ** 0.5, rmse_adj=float(sse / (n - p)) ** 0.5,
+                cvrmse=float(sse / n) ** 0.5 / float(mabs), cvrmse_adj=float(sse / (n - p)) ** 0.5 / float(mabs),
+                )
+    if all(o >= 0 for o, _ in pairs):
+        want["num_meter_zeros"] = sum(1 for o, _ in pairs if o == 0)
+    if so != 0:
+        want["nmbe"] = float(sum(q - o for o, q in pairs) / so)
+        want["nmae"] = float(sum(abs(q - o) for o, q in pairs) / so)
+    if all(o != 0 for o, _ in pairs):
+        want["mape"] = float(sum(abs((q - o) / o) for o, q in pairs) / n)
+    pr = []
+    for f, w in want.items():
+        g = getattr(mm, f)
+        if g is None or g != g or abs(float(g) - w) > 1e-9 * max(1.0, abs(w)):
+            pr.append(f"{f} = {g}, the formula on the {n} pairs gives {w}")
+    js = mm.json()
+    for f in ("cvrmse", "cvrmse_adj", "rmse", "observed_mean"):
+        if js.get(f) is None or abs(js[f] - want[f]) > 1e-9 * max(1.0, abs(want[f])):
+            pr.append(f"json()[{f!r}] = {js.get(f)}, expected {want[f]}")
+    return bool(pr), "; ".join(pr[:4])
+
+
+def run_caltrack_metrics(case):
+    case.inputs = []
+
+    def run():
+        inp = dict(signs=F.choose("signs", CT_SIGNS), gaps=F.choose("gaps", CT_GAPS), seed=F.choose("seed", [1, 2]), params=F.choose("params", [1, 5]))
+        return inp, replay_caltrack_metrics(inp)
+
+    paths = case.explore(run)
+    for p in paths:
+        if p.outcome != "ret":
+            case.rep["harness_errors"].append(f"CalTRACK metrics scenario raised {p.value!r}")
+            continue
+        inp, (bad, det) = p.value
+        label = "CalTRACK-hourly ModelMetrics: lengths, RMSE, adjusted RMSE, normalising mean, CVRMSE, NMAE, NMBE, MAPE equal the formulas on the pairs both series have"
+        if not case.ground(not bad, label):
+            case.violation(label, "caltrack_metrics", inp, det)
+        case.regime("usage of both signs", inp["signs"].startswith("both"))
+        case.regime("series of different lengths", inp["gaps"].startswith("series of"))
+    case.sample(dict(check="ModelMetrics against exact rational arithmetic", series=len(paths)))
+
+
+
 # ----------------------------------------------------------------- the statistics a model reports are its own
 
 def replay_objects(inp):
@@ -673,7 +761,7 @@ def run_crosshair(case):
     case.rep["paths"] += len(res)
 
 
-REPLAY = {"objects": replay_objects, "conditioning": replay_conditioning, "hourly_real": (lambda inp: replay_hourly_real(inp)[:2]), "xhair": replay_xhair, "hourly_fit": replay_hourly_fit, "gate": replay_gate, "baseline": replay_baseline, "safe_divide": replay_safe_divide, "reporting": replay_reporting, "daily_error": replay_daily_error}
+REPLAY = {"caltrack_metrics": replay_caltrack_metrics, "objects": replay_objects, "conditioning": replay_conditioning, "hourly_real": (lambda inp: replay_hourly_real(inp)[:2]), "xhair": replay_xhair, "hourly_fit": replay_hourly_fit, "gate": replay_gate, "baseline": replay_baseline, "safe_divide": replay_safe_divide, "reporting": replay_reporting, "daily_error": replay_daily_error}
 
 
 def daily_error(resid, obs, wsse):
@@ -706,6 +794,8 @@ def run_case(case: Case, name: str):
         return run_crosshair(case)
     if kind == "conditioning":
         return run_conditioning(case)
+    if kind == "caltrack_metrics":
+        return run_caltrack_metrics(case)
     if kind == "objects":
         return run_objects(case, name.split("/")[1])
     return run_daily_error(case, n)
